@@ -57,7 +57,12 @@ func normalizeLimits(limits Limits) Limits {
 func (l *Loader) SetLimits(limits Limits) {
 	l.mu.Lock()
 	defer l.mu.Unlock()
-	l.limits = normalizeLimits(limits)
+	limits = normalizeLimits(limits)
+	if limits != l.limits {
+		// cached files were admitted under the old limits
+		l.cache = make(map[string]*ast.Journal)
+	}
+	l.limits = limits
 }
 
 func (l *Loader) getLimits() Limits {
